@@ -357,3 +357,20 @@ def _closures(ctx):
                 eff[0][1][2] and eff[0][1][2][0] == 'Some' and sfield(eff[0][1], '0') == SYM('seed') and outs[0].ret == SYM('self')
         rep.check(ok, 'R6', 'seed-setter-stores-its-argument', where(sb), 'self.seed = Some(seed); returns self',
                   'BuildOptimiser::seed does not store exactly Some(argument) and return the same builder')
+
+
+def thorough(ctx):
+    """Thorough tier: compile-fail witnesses (+ compiling twins) for the type-level remainder."""
+    from ..witness import run_witnesses
+    rep = ctx.rep
+    res, tail, rc = run_witnesses(ctx.repo)
+    wanted = {'W1BasisCannotOutliveState': 'a basis handle cannot outlive its state', 'W2StateIsMoved': 'the optimised state is moved, the original is kept only by Clone'}
+    n = 0
+    for name, verdict in sorted(res.items()):
+        w, kind, _line = name.split(':')
+        if w not in wanted:
+            continue
+        n += 1
+        rep.check(verdict == 'ok', 'W', '%s:%s' % (w, kind), 'witness/src/lib.rs', wanted[w] + (' (does not compile)' if kind == 'compile_fail' else ' (twin compiles)'),
+                  'witness %s/%s failed: the type-level guarantee "%s" no longer holds for downstream code (or the public API it uses changed)' % (w, kind, wanted[w]))
+    rep.floor('W', 'witness doctests', n, 4, 'witness/src/lib.rs')
